@@ -23,8 +23,11 @@ Fails(e) ==
   \cup (IF inm /\ e.enc # "ok" /\ e.dec = "ok" THEN {"encode-refuses-decode-accepts"} ELSE {})
   \cup (IF e.enc = "panic" \/ e.dec = "panic" \/ e.decused = "panic" THEN {"panic"} ELSE {})
   \* the verdict on the bytes is the verdict of the rules: not of what the destination held before
-  \cup (IF e.decused # e.dec THEN {"decode-verdict-depends-on-what-the-destination-held-before"} ELSE {})
+  \cup (IF ~e.priorok THEN (IF Valid(e.kind, e.prior) THEN {"valid-header-set-refused-after-other-decodes"} ELSE {"infra-prior-image-not-valid"}) ELSE {})
+  \cup (IF ~e.badrefused THEN (IF ~Valid(e.kind, e.bad) THEN {"invalid-header-set-accepted-after-other-decodes"} ELSE {"infra-refused-image-is-valid"}) ELSE {})
+  \cup (IF e.priorok /\ e.decused # e.dec THEN {"decode-verdict-depends-on-what-the-destination-held-before"} ELSE {})
   \cup (IF ~e.usedsame THEN {"decoded-headers-depend-on-what-the-destination-held-before"} ELSE {})
+  \cup (IF e.decafterbad # e.dec \/ ~e.afterbadsame THEN {"decoding-depends-on-an-earlier-refused-decode"} ELSE {})
 
 TInit == l = 1 /\ KitInit
 TNext == /\ l <= Len(Tr) /\ l' = l + 1
